@@ -23,7 +23,12 @@ checked shapes (TranslateError when absent):
   * scan.rs: the error callback returns Err only for `ScanError::Timeout`;
     result lines are sent with `.send(Message::Info(..)).unwrap()`;
     a scan error is propagated (`scan_results?`) before `on_file_scanned`;
-  * main.rs: the panic hook calls `process::exit`.
+  * main.rs: the panic hook calls `process::exit`;
+  * scan.rs: every `--define` is applied to EACH worker's scanner: the per-thread
+    initialisation closure (first closure given to `w.walk`) creates
+    `Scanner::new(rules_ref)` and loops `for (ident, value) in vars { scanner.set_global(..) }`
+    over `external_vars` (what makes --compiled-rules honour scan-time values), and
+    likewise applies --max-matches-per-pattern / --fast-scan / --no-mmap there.
 """
 import re
 from tlib import *
@@ -130,6 +135,19 @@ def main():
     info_unwraps = re.findall(r"output\s*\.send\(Message::Info\([^;]*?\)\)\s*\.unwrap\(\)\s*;", scan, re.S)
     need(len(info_sends) >= 4 and len(info_sends) == len(info_unwraps), "every Info line is sent with .unwrap()")
 
+    # per-worker scanner initialisation
+    need(re.search(r"let\s+external_vars\s*=\s*get_external_vars\(args\)\s*;", ex), "let external_vars = get_external_vars(args);")
+    im = re.search(r"w\.walk\(\s*state\s*,\s*\|_,\s*_\|\s*\{", ex)
+    need(im, "w.walk(state, |_, _| { .. } : the per-thread initialisation closure")
+    ij = match_brace(ex, im.end() - 1)
+    initc = ex[im.end():ij]
+    need(re.search(r"let\s+mut\s+scanner\s*=\s*Scanner::new\(rules_ref\)\s*;", initc), "init closure: let mut scanner = Scanner::new(rules_ref);")
+    need(re.search(r"if\s+let\s+Some\(ref\s+vars\)\s*=\s*external_vars\s*\{\s*for\s*\(ident,\s*value\)\s*in\s+vars\s*\{[^}]*scanner\s*\.set_global\(ident\.as_str\(\),\s*value\)", initc, re.S),
+         "init closure: for (ident, value) in vars { scanner.set_global(ident.as_str(), value) } over external_vars (every --define reaches each worker's scanner)")
+    need(re.search(r"scanner\.max_matches_per_pattern\(", initc), "init closure applies --max-matches-per-pattern")
+    need(re.search(r"scanner\.fast_scan\(true\)", initc), "init closure applies --fast-scan")
+    need(re.search(r"scanner\s*$", initc.strip()), "init closure returns the scanner")
+
     need(re.search(r"panic::set_hook\(Box::new\(move\s*\|panic_info\|\s*\{[^}]*process::exit\(EXIT_ERROR\)\s*;\s*\}\)\)", mainrs, re.S),
          "main.rs: panic hook exits the process")
 
@@ -151,8 +169,13 @@ Definition main_keeps_paths_receiver : bool := {str(keeps_rx).lower()}.
    error callback fails; one un-cloned paths_send owned by the walker closure;
    SendError aborts the walk; printer stops on Abort / Disconnected; join after the
    printer; scan.rs error callback fails only for ScanError::Timeout; scan errors are
-   propagated before any output; Info lines sent with .unwrap(); panic hook exits. *)
-Definition checked_shapes : nat := 17.
+   propagated before any output; Info lines sent with .unwrap(); panic hook exits; per-worker
+   scanner initialisation applies the --define values and scan options. *)
+Definition checked_shapes : nat := 22.
+
+(* scan.rs: the per-thread initialisation closure applies every --define (set_global loop over
+   external_vars), --max-matches-per-pattern, --fast-scan and --no-mmap to the worker's own scanner *)
+Definition defines_applied_per_worker : bool := true.
 """
     write_if_changed("WalkGen.v", text)
 
